@@ -22,6 +22,7 @@ pub mod c17;
 pub mod c18;
 pub mod c19;
 pub mod common;
+pub mod setroutes;
 pub mod c20;
 
 pub fn implemented(id: &str) -> bool {
